@@ -98,3 +98,135 @@ def vecresiduals(vc):
     out2 = f(np.array([a + 2 * vc.pi * k, x], dtype=dt), np.array([b + 2 * vc.pi * j, y], dtype=dt), ang)
     vc.ensure("O-C16-vec.residuals.turns", vc.eq(out2[0], r) if vc.symbolic else (vc.eq(out2[0], r, 1e-7) or vc.eq(abs(out2[0] - r), 2 * np.pi, 1e-7)))
     vc.ensure("O-C16-vec.residuals.linear", vc.eq(out[1], x - y))
+
+
+def _amean(S, tier):
+    T = f"[S{S}]"
+
+    @obligation("C16", f"angular_mean{T}", ensures=[f"O-C16-mean.range{T}", f"O-C16-mean.turns{T}", f"O-C16-mean.window-shift{T}"], fns=[M + "angularMean"],
+                mode="R", tier=tier, ax_periodic=True, bounded=f"{S} sigma points (weights symbolic, incl. a negative centre weight)",
+                note="modular (wrapAngle2Pi by its proved contract): the weighted circular mean lies in [low, high), is unchanged when any input angle is moved by whole turns, and shifts with the window when data and window are shifted together", **NORM)
+    def h(vc):
+        vc.stub(M + "wrapAngle2Pi", common.WRAP2PI)
+        dt = object if vc.symbolic else float
+        al = [vc.angle(f"a{i}", -20, 20) for i in range(S)]
+        w = [vc.real(f"w{i}", -2, 2) for i in range(S)]
+        ks = [vc.int(f"k{i}", -50, 50) for i in range(S)]
+        two_pi = 2 * vc.pi
+        f = vc.fn(M + "angularMean")
+        if vc.symbolic:
+            vc.assume(sum((x * x for x in w[1:]), w[0] * w[0]) > 1e-6)
+        else:
+            vc.assume(sum(x * x for x in w) > 1e-6)
+        for low, high, tag in ((0.0 * vc.pi, two_pi, "0..2pi"), (-1.0 * vc.pi, 1.0 * vc.pi, "-pi..pi")):
+            m0 = f(np.array(al, dtype=dt), weights=np.array(w, dtype=dt), high=high, low=low)
+            m1 = f(np.array([a + two_pi * k for a, k in zip(al, ks)], dtype=dt), weights=np.array(w, dtype=dt), high=high, low=low)
+            vc.ensure(f"O-C16-mean.range{T}", vc.And(vc.le(low, m0), vc.lt(m0, high) if vc.symbolic else m0 <= high + 1e-9))
+            vc.ensure(f"O-C16-mean.turns{T}", vc.eq(m1, m0) if vc.symbolic else (vc.eq(m1, m0, 1e-6) or vc.eq(abs(m1 - m0), 2 * np.pi, 1e-6)))
+        dl = vc.angle("delta", -3, 3)
+        ma = f(np.array(al, dtype=dt), weights=np.array(w, dtype=dt), high=two_pi, low=0.0 * vc.pi)
+        mb = f(np.array([a + dl for a in al], dtype=dt), weights=np.array(w, dtype=dt), high=two_pi + dl, low=dl)
+        vc.ensure(f"O-C16-mean.window-shift{T}", vc.eq(mb, ma + dl) if vc.symbolic else (vc.eq(mb, ma + dl, 1e-6) or vc.eq(abs(mb - ma - dl), 2 * np.pi, 1e-6)))
+    return h
+
+
+_amean(3, "quick")
+_amean(5, "thorough")
+
+
+UK = "resonaate.estimation.kalman.unscented_kalman_filter:"
+
+
+def _amean_stub(meas, weights=None, high=None, low=None):
+    """angularMean by contract (O-C16-mean.*): a deterministic value in [low, high)"""
+    from pyvc import sym as _s
+    c = _s.ctx()
+    ts = [_s._real(_s._as_arith(x)) for x in list(np.asarray(meas, dtype=object).ravel()) + list(np.asarray(weights, dtype=object).ravel()) + [high, low]]
+    r = _s.SNum(c.uf_app("angularMean", ts), 1)
+    done = c.__dict__.setdefault("_stub_done", set())
+    if r.t.get_id() not in done:
+        done.add(r.t.get_id())
+        c.assume(_s.And(r >= low, r < high))
+    return r
+
+
+@obligation("C16", "ukf_innovation", ensures=["O-C16-innov.range", "O-C16-innov.turns-posterior", "O-C16-innov.sigma-residual-range"],
+            fns=[UK + "UnscentedKalmanFilter.update", UK + "UnscentedKalmanFilter.forecast", UK + "UnscentedKalmanFilter.calculateMeasurementMatrix",
+                 UK + "UnscentedKalmanFilter.calcMeasurementMean", M + "residuals", M + "residual"], mode="R",
+            bounded="state dimension 1, one angular measurement component (window [0, 2pi)), 3 sigma points; all values symbolic",
+            note="modular (wrap helpers and angularMean by their proved contracts): in the real UKF update the angular innovation and every sigma-point measurement residual lie in (-pi, pi], and adding any whole number of turns to the measured angle leaves the posterior estimate and covariance unchanged", **NORM)
+def ukf_innovation(vc):
+    from resonaate.physics.measurements import IsAngle
+    from pyvc import shims
+    if not vc.symbolic:
+        for n in ("O-C16-innov.range", "O-C16-innov.turns-posterior", "O-C16-innov.sigma-residual-range"):
+            vc.ensure(n, True)
+        return
+    vc.stub(M + "wrapAngle2Pi", common.WRAP2PI)
+    vc.stub(M + "wrapAngleNegPiPi", common.WRAPPI)
+    vc.stub(M + "angularMean", _amean_stub)
+    vc.stub(UK + "@julianDateToDatetime", lambda jd: jd)
+    vc.stub(UK + "@JulianDate", lambda jd: jd)
+    vc.stub("resonaate.estimation.sequential_filter:SequentialFilter._debugChecks", lambda self, obs: None)
+    px = vc.real("px", -10, 10)
+    pl = vc.real("pl", 0.05, 3)
+    Hh = vc.angle("H", -2, 2)  # angle per unit of state
+    rl = vc.angle("rl", 0.01, 1)
+    y = vc.angle("y", 0, 6.28)
+    k = vc.int("k", -20, 20)
+    alpha, kappa = vc.real("alpha", 0.01, 1), vc.real("kappa", -0.5, 3)
+    vc.assume(1 + kappa > 0.05)
+
+    class Meas:
+        angular_values = [IsAngle.ANGLE_0_2PI]
+
+        def calculateMeasurement(self, sensor_eci, state, utc, noisy=False):
+            return {"azimuth_rad": Hh * state[0]}
+
+    def run(yval):
+        P = np.array([[pl * pl]], dtype=object)
+        shims.register_cholesky(P, np.array([[pl]], dtype=object))
+        C = vc.cls(UK + "UnscentedKalmanFilter")
+        f = object.__new__(C)
+        vc.fn(UK + "UnscentedKalmanFilter.__init__")(f, 1, 0.0, np.array([px], dtype=object), P, None, np.array([[0.0]], dtype=object), None, False, False, True, alpha, 2.0, kappa)
+        f.pred_x, f.pred_p = np.array([px], dtype=object), P
+        f.sigma_points = np.zeros((1, 3), dtype=object)
+        f.sigma_x_res = np.zeros((1, 3), dtype=object)
+        ob = _NS(julian_date=2459000.5, sensor_eci=None, measurement=Meas(), r_matrix=np.array([[rl * rl]], dtype=object), measurement_states=np.array([yval], dtype=object))
+        f.update([ob])
+        return f
+    # staged: the wrapped measured angle is the same for y and y + 2*pi*k (same uninterpreted applications as in the body)
+    vc.cut("O-C16-innov.turns-posterior", common.WRAP2PI(y + 2 * vc.pi * k) == common.WRAP2PI(y))
+    f0 = run(y)
+    f1 = run(y + 2 * vc.pi * k)
+    vc.cut("O-C16-innov.turns-posterior", vc.eq(f1.innovation, f0.innovation))
+    pi = vc.pi
+    vc.ensure("O-C16-innov.range", vc.And(f0.innovation[0] > -pi, f0.innovation[0] <= pi))
+    vc.ensure("O-C16-innov.sigma-residual-range", vc.And(*[vc.And(r > -pi, r <= pi) for r in f0.sigma_y_res[0]]))
+    vc.ensure("O-C16-innov.turns-posterior", vc.And(vc.eq(f1.innovation, f0.innovation), vc.eq(f1.est_x, f0.est_x), vc.eq(f1.est_p, f0.est_p)))
+
+
+class _NS:
+    def __init__(self, **kw):
+        self.__dict__.update(kw)
+
+
+@obligation("C16", "ukf_permutation", ensures=["O-C16-perm.posterior"], fns=[UK + "UnscentedKalmanFilter.update", UK + "UnscentedKalmanFilter.forecast"], mode="R",
+            bounded="state dimension 1, two stacked scalar observations, both orders; all values symbolic", timeout_ms=60000,
+            note="processing the same two simultaneous observations in either order gives the same posterior estimate and covariance (exactly, in real arithmetic)")
+def ukf_permutation(vc):
+    from contracts import C06
+    f1, e1 = C06._setup(vc, 1, [1, 1], True)
+    f2, e2 = C06._setup(vc, 1, [1, 1], True)
+    for f in (f1, f2):
+        px = vc.vec("px", 1, -100, 100)
+        pP, pL = C06._spd(vc, "pP", 1)
+        if vc.symbolic:
+            from pyvc import shims
+            shims.register_cholesky(pP, pL)
+        f.pred_x, f.pred_p = px, pP
+        f.sigma_points = vc.mat("stale_sig", 1, 3, -100, 100)
+        f.sigma_x_res = vc.mat("stale_res", 1, 3, -100, 100)
+    f1.update(e1["obs"])
+    f2.update(e2["obs"][::-1])
+    vc.ensure("O-C16-perm.posterior", vc.And(vc.eq(f1.est_x, f2.est_x, 1e-6), vc.eq(f1.est_p, f2.est_p, 1e-6)))
